@@ -98,8 +98,17 @@ impl writer::NonTransforming for Rec {}
 impl writer::Normalized for Rec {}
 
 /// Drives a writer's `handle_event` to completion (built-in writers never suspend).
+///
+/// The writer receives a *clone* of the item and the original is dropped, which is what the
+/// left arm of a `Tee` (and everything replayed by a `Repeat`) gets: the hand-written `Clone`
+/// impls of the event types are on every path.
 pub fn feed<Wr: Writer<TW>>(w: &mut Wr, ev: RawItem, cli: &Wr::Cli) {
-    w.handle_event(ev, cli).now_or_never().expect("writer suspended in handle_event");
+    feed_ref(w, &ev, cli);
+}
+
+/// Feeds one clone of `ev` (exactly one `Clone::clone` between the item and the writer).
+pub fn feed_ref<Wr: Writer<TW>>(w: &mut Wr, ev: &RawItem, cli: &Wr::Cli) {
+    w.handle_event(ev.clone(), cli).now_or_never().expect("writer suspended in handle_event");
 }
 
 // ----------------------------------------------------------- real event values
